@@ -1,5 +1,5 @@
 (* C14 — constraint violations raise and leave the value unchanged.  Property theorems only. *)
-Require Import RM.Base RM.Gindex RM.Tree RM.Types RM.Spec RM.ModelViews RM.ModelCodec RM.ModelMut RM.ModelStore RM.StoreProofs RM.BasicProofs RM.ModelBasic RM.ReprProofs RM.CtorSound RM.StoreChain.
+Require Import RM.Base RM.Gindex RM.Tree RM.Types RM.Spec RM.ModelViews RM.ModelCodec RM.ModelMut RM.ModelStore RM.StoreProofs RM.BasicProofs RM.ModelBasic RM.CRepProofs RM.ReprProofs RM.CtorSound RM.StoreChain RM.SliceProofs.
 Local Open Scope N_scope.
 
 (* a failed command on a top-level view (or a copy) leaves EVERY held view exactly as it was:
@@ -104,3 +104,25 @@ Print Assumptions C14_constructor_sound.
 Print Assumptions C14_constructor_rejects.
 Print Assumptions C14_constructor_accepts_iff.
 Print Assumptions C14_valid_denotes_itself.
+
+(* ---- slice assignment `view[a:b] = values` on lists and vectors: all or nothing (SliceProofs.v) ----
+   Through ANY usable held view u (seq_view: every held view represents its tracked value, the hooks from u up are
+   valid, u is a list / vector view tracking VSeq ws) the assignment either fails leaving the WHOLE store as it was, or
+   succeeds: every argument denotes a value, the slice bounds lie inside the view, every held view again represents
+   its tracked value — u the old elements with positions a.. overwritten — and every usable view stays usable. *)
+Theorem C14_slice_all_or_nothing : forall H src s vs u e ws a b args, seq_view H s vs u e ws ->
+  (exists er, slice_set H src s u a b args = (Err er, s)) \/
+  (exists s' vs' xs, slice_set H src s u a b args = (Ok tt, s') /\ Forall2 (fun x w => arg_val e x = Some w) args xs /\
+     (0 <= a)%Z /\ (b = a + Z.of_nat (length args))%Z /\ (Z.to_nat b <= length ws)%nat /\
+     seq_view H s' vs' u e (overwrite (Z.to_nat a) ws xs) /\ (forall p, Valid s vs p -> Valid s' vs' p)).
+Proof. exact slice_all_or_nothing. Qed.
+
+(* progress: once the checks have passed, no element assignment can fail half-way *)
+Theorem C14_element_set_progress : forall H src s vs u e ws i a, seq_view H s vs u e ws ->
+  (0 <= i < Z.of_nat (length ws))%Z -> (exists x, coerce_arg H e a = Ok x) ->
+  exists s' w vs', run_cmd H src s (CSet u i a) = (Ok tt, s') /\ arg_val e a = Some w /\
+                   seq_view H s' vs' u e (upd (Z.to_nat i) w ws) /\ (forall p, Valid s vs p -> Valid s' vs' p).
+Proof. exact slice_step. Qed.
+
+Print Assumptions C14_slice_all_or_nothing.
+Print Assumptions C14_element_set_progress.
